@@ -704,6 +704,16 @@ impl Engine for SbEngine {
                                     return Some(v("result-depends-on-order", &[], format!("merging the same {} parts in sending order and in the delivered order gives different results (client order: {:?} vs {:?})", n_parts, r.clients.iter().take(4).map(|c| c.name.to_string()).collect::<Vec<_>>(), x.clients.iter().take(4).map(|c| c.name.to_string()).collect::<Vec<_>>())));
                                 }
                             }
+                            // the other way to obtain the complete info (`take_info`, on a copy) must hand out the same value
+                            let taken = guard(|| {
+                                let mut c = acc.as_ref().unwrap().clone();
+                                c.take_info()
+                            });
+                            match taken {
+                                Ok(Some(ref t)) if t == x => ctx.count("probe_take_info_checked"),
+                                Ok(other) => return Some(v("take-info-differs", &[], format!("get_info reports the complete info but take_info returned {}", if other.is_some() { "a different value" } else { "nothing" }))),
+                                Err(pn) => return Some(v("panic", &[("where", "take_info"), ("message", &pn.msg_class()), ("file", &pn.file_class())], format!("take_info panicked: {} at {}:{}", pn.msg, pn.file, pn.line))),
+                            }
                             if got != want || !hdr_ok {
                                 let dup = {
                                     let mut g2 = got.clone();
